@@ -562,14 +562,18 @@ def run(tier: str, seed: int) -> int:
     _SEEN.clear()
     MATRIX.clear()
     rng = random.Random(seed * 7919 + 1)
-    terr, records = run_translator()
-    if terr is None:
-        pr = core.proof_stage(PROP, COQ_TARGETS)
-    else:
-        # the source left the translatable fragment: no proof obligation counts as discharged, the tie is reported broken and
-        # the decision falls to the (widened) behavioural correspondence below
-        pr = {"obligations": len(core.property_theorems(PROP)), "discharged": 0, "theorems": {},
-              "problems": ["translator tie broken: py2gallina failed closed: " + terr]}
+    # gen/ViewGen.v is shared by every run: concurrent C01 runs against different source trees (seeded-change tests) must not
+    # build against each other's translation, so regenerate + build + Print Assumptions happen under one lock
+    core.GEN.mkdir(exist_ok=True)
+    with core._Lock(core.GEN / ".c01_viewgen.lock"):
+        terr, records = run_translator()
+        if terr is None:
+            pr = core.proof_stage(PROP, COQ_TARGETS)
+        else:
+            # the source left the translatable fragment: no proof obligation counts as discharged, the tie is reported broken
+            # and the decision falls to the (widened) behavioural correspondence below
+            pr = {"obligations": len(core.property_theorems(PROP)), "discharged": 0, "theorems": {},
+                  "problems": ["translator tie broken: py2gallina failed closed: " + terr]}
     if pr["problems"]:
         core.make(MODEL_TARGETS)          # the model itself does not depend on the generated file: keep it runnable
         pr["problems"] = [explain_tie_break(x, pr) for x in pr["problems"]]
